@@ -44,6 +44,27 @@ func judgeRelay(c *vk.Ctx, prop string, rc relayCase, o *relayOutcome) bool {
 		c.Violation(prop+"/target-never-contacted", wit(nil))
 		return false
 	}
+	if rc.Mode == "target-done-early" {
+		// the target left after answering: what it read is a prefix of the upload (the rest goes
+		// nowhere, legitimately); its complete answer must reach the client, then a clean end
+		if !bytes.HasPrefix(up, o.TargetGot) {
+			c.Violation(prop+"/client-to-target-stream-differs", wit(map[string]any{"target_got_len": len(o.TargetGot)}))
+			return false
+		}
+		if d := firstDiff(o.ClientGot, down); d >= 0 {
+			c.Violation(prop+"/target-to-client-stream-differs", wit(map[string]any{"first_diff_offset": d, "client_got_len": len(o.ClientGot), "want_len": len(down), "history": "target answered and closed; client uploaded more, half-closed, then read the answer"}))
+			return false
+		}
+		if !o.ClientEOF || o.Stalled != "" {
+			c.Violation(prop+"/target-half-close-not-propagated-to-client", wit(nil))
+			return false
+		}
+		if !o.HandlerDone || o.Rec == nil {
+			c.Violation(prop+"/handler-did-not-finish", wit(nil))
+			return false
+		}
+		return true
+	}
 	if d := firstDiff(o.TargetGot, up); d >= 0 {
 		c.Violation(prop+"/client-to-target-stream-differs", wit(map[string]any{"first_diff_offset": d, "target_got_len": len(o.TargetGot), "want_len": len(up)}))
 		return false
@@ -93,6 +114,18 @@ func c02Run(c *vk.Ctx) {
 	cases := make([]relayCase, n)
 	for i := range cases {
 		cases[i] = genRelayCase(r, c.Batch, keys[:4+r.Intn(len(keys)-3)], c.Thorough() && i%10 == 0)
+		switch {
+		case i%40 == 7 && cases[i].Mode != "concurrent":
+			// one direction ends, the other pauses for longer than any "half-open grace period" and carries on
+			cases[i].TailDelayMs = 6500
+			cases[i].SlowMs, cases[i].CloseLn = 0, false
+			cases[i].UpLen, cases[i].DownLen, cases[i].TailAfter = max(cases[i].UpLen, 4000), max(cases[i].DownLen, 4000), 2000
+		case i%20 == 3:
+			cases[i].Mode = "target-done-early"
+			cases[i].DownLen = 500000 + r.Intn(700000)
+			cases[i].UpLen = 5000 + r.Intn(40000)
+			cases[i].SlowMs, cases[i].SlowRead, cases[i].CloseLn, cases[i].TgtFirst, cases[i].TailDelayMs = 0, 0, false, false, 0
+		}
 	}
 	var wg sync.WaitGroup
 	work := make(chan int)
@@ -124,6 +157,9 @@ func c02Run(c *vk.Ctx) {
 					}
 					if rc.AddrType == 3 {
 						c.Count("domain_targets", 1)
+					}
+					if rc.TailDelayMs > 0 {
+						c.Count("long_pauses_after_a_half_close", 1)
 					}
 					if o.LnClosedMid {
 						c.Count("relays_outliving_their_listener", 1)
@@ -214,6 +250,8 @@ func init() {
 			c.Require("slow_exchanges_longer_than_handshake_timeout")
 			c.Require("relays_outliving_their_listener")
 			c.Require("storm_exchanges_intact")
+			c.Require("mode_target-done-early")
+			c.Require("long_pauses_after_a_half_close")
 			c02Run(c)
 		},
 	})
